@@ -109,8 +109,9 @@ def async_rules(R, ctx):
             R.bad('R03.3', f"{spawner}|single-consumer", f"{spawner} not found", where=None)
             continue
         spawns = [bb for bb, t in b.calls() if callee_name(t) == 'std::thread::Builder::spawn']
-        clos = [x for x in f.fn_bodies() if x.kind == 'Closure' and x.path.startswith(spawner + '::') and x.path.count('{closure') == 1]
-        recv_in = [x for x in clos if any(callee_name(t).endswith('Receiver::<T>::recv') for bb, t in x.calls())]
+        # the thread entries this function spawns; the consumer is the one that reaches a blocking recv (in its own body or in a named function it calls)
+        RECV = lambda n_, t_: n_.endswith('Receiver::<T>::recv')
+        recv_in = [f.bodies[e] for e in spawned_entries(cg, spawner) if e in f.bodies and cg.reaches_effect(e, RECV, spawn=False)]
         R.check('R03.3', f"{spawner}|single-consumer", len(spawns) == 1 and len(recv_in) == 1, "one spawned consumer closure owns the receiver",
                 f"{spawner}: {len(spawns)} spawns / {len(recv_in)} closures receiving from the channel", where=b.loc())
         if len(recv_in) != 1:
